@@ -221,7 +221,22 @@ pub fn run(cx: &mut Cx) {
         let mut pat = base.clone();
         let mut bounds = vec![];
         for op in &ops {
-            let b = bound(&mut r);
+            // Sometimes the second bound is the first one again or an
+            // equal-valued respelling of it (trailing zero components), so
+            // that ranges whose ends tie are reached.
+            let b = if !bounds.is_empty() && r.chance(1, 4) {
+                let first: &String = &bounds[0];
+                match r.below(6) {
+                    0 => first.clone(),
+                    1 => format!("{first}.0"),
+                    2 => format!("{first}pl"),
+                    3 => format!("{first}_"),
+                    4 => format!("{first}.0.0"),
+                    _ => first.strip_suffix(".0").map(|x| x.to_string()).unwrap_or_else(|| format!("{first}pl0")),
+                }
+            } else {
+                bound(&mut r)
+            };
             pat.push_str(op.text());
             pat.push_str(&b);
             bounds.push(b);
